@@ -178,6 +178,9 @@ class World:
 
     def op_new_cells(self, op):
         src = op.get("src")
+        if op.get("badobj"):
+            self.space(op["space"]).new_cells(op["name"], formula=bad_formula_object(op["badobj"]))
+            return
         if op.get("autoname") and src and src.lstrip().startswith("def %s(" % op["name"]):
             # no explicit name: the cells is named after its def formula
             self.space(op["space"]).new_cells(formula=src, is_cached=op.get("is_cached", True))
@@ -195,7 +198,7 @@ class World:
         self.space(op["space"]).cells[op["name"]].rename(op["new"])
 
     def op_set_formula(self, op):
-        self.space(op["space"]).cells[op["name"]].formula = op["src"]
+        self.space(op["space"]).cells[op["name"]].formula = bad_formula_object(op["badobj"]) if op.get("badobj") else op["src"]
 
     def op_del_formula(self, op):
         del self.space(op["space"]).cells[op["name"]].formula
@@ -329,6 +332,20 @@ class World:
             key = k if (impl_n != 1) else (k,)
             out[tuple(key)] = norm(c[k])
         return out
+
+
+def bad_formula_object(kind):
+    """Things that are not source text and that modelx cannot take as a formula."""
+    if kind == "int":
+        return 42
+    if kind == "builtin":
+        return len
+    if kind == "two-lambdas":
+        pair = (lambda x: x, lambda x: x + 1)      # two lambdas on one source line: the source cannot be told apart
+        return pair[0]
+    if kind == "object":
+        return object()
+    raise ValueError(kind)
 
 
 def prepare(op):
